@@ -44,6 +44,17 @@ def main():
     import vlib
     p = vlib.import_impl()
     specs = json.load(open(sys.argv[1]))
+    if len(sys.argv) > 3 and sys.argv[2] == "--twice":
+        # one recorded call, made three times as the first calls of this interpreter
+        sp = specs[int(sys.argv[3])]
+        rs = []
+        for _ in range(3):
+            try:
+                rs.append(evaluate(p, sp))
+            except Exception as e:  # noqa
+                rs.append(("EVAL-ERROR " + repr(e)[:100], []))
+        print(json.dumps(rs))
+        return
     out = {}
     for i in reversed(range(len(specs))):
         if specs[i] is None:
